@@ -151,6 +151,10 @@ class AlterOracle(Oracle):
         for pos, mask in alterations:
             altered = bytearray(raw)
             altered[pos] ^= mask
+            if (altered[0] & 0x80) and bytes(altered[1:5]) == b"\x00\x00\x00\x00":
+                # the alteration turned a long-header packet into a Version Negotiation packet,
+                # which is unauthenticated by design (RFC 9000 6): not an "altered protected packet"
+                continue
             data = bytes(altered)
             if p.ptype == "initial" and ep.peer.is_client and len(data) < 1200:
                 data += b"\x00" * (1200 - len(data))  # datagram padding, as the client does
